@@ -32,7 +32,7 @@ DATE = datetime.datetime(2021, 3, 4, 5, 6, 7, 891011)
 # creation dates: with microseconds, on a whole second (isoformat drops the fraction), timezone-aware
 DATES = [DATE, datetime.datetime(2014, 6, 3), datetime.datetime(2014, 6, 3, 14, 24, 40),
          datetime.datetime(2020, 2, 29, 23, 59, 59, 5, tzinfo=datetime.timezone(datetime.timedelta(hours=2)))]
-READERS = ['load_path', 'load_gz', 'parse_handle', 'parse_lines', 'from_json']
+READERS = ['load_path', 'load_gz', 'parse_handle', 'parse_lines', 'parse_lines_noends', 'from_json']
 
 
 # ------------------------------------------------------------------------- metadata values
@@ -318,6 +318,9 @@ def check(case, acc, tmp):
                     r = parse_table(fh)
             elif rd == 'parse_lines':
                 r = parse_table(texts['string'].splitlines(True))
+            elif rd == 'parse_lines_noends':
+                # the usual "list of lines" of a text that was read whole: no terminators
+                r = parse_table(texts['direct'].splitlines())
             else:
                 r = Table.from_json(json.loads(texts['direct']))
         except Exception as e:
